@@ -15,6 +15,10 @@ CONSTANTS G,           \* grammar: "G12" (NV variables), "G3" for_all, "G6" sub-
 
 AllLeaves == CASE G = "G12" -> (IF NV = 1 THEN LeavesG1 ELSE LeavesG2(NV))
                [] G = "G4"  -> LeavesG2(2)
+               \* a small vocabulary that mixes the pairs of three variables (partial bindings meet in and_/or_ trees)
+               [] G = "G3v" -> << PredC("p_lt", <<At(V(2), "m"), At(V(3), "n")>>, "fn"), InC(V(2), At(V(1), "refs"), "contains"),
+                                  CmpC("eq", At(V(1), "n"), LitI(0)), CmpC("ge", At(V(3), "m"), At(V(2), "m")),
+                                  CmpC("eq", At(V(1), "n"), At(V(3), "m")), CmpC("lt", At(V(2), "n"), At(V(1), "m")) >>
                [] G = "G1x" -> Cat([i \in 1..NV |-> Some(CoreLeaves(V(i)), 2)])    \* independent single-variable leaves
                [] G = "G3"  -> LeavesG3
                [] G = "G6"  -> LeavesG6
@@ -28,6 +32,7 @@ Sel(desc, sel) == [desc |-> desc, sel |-> sel, flats |-> <<>>, bound |-> <<>>]
 SelF(desc, sel, src) == [desc |-> desc, sel |-> sel, flats |-> <<src>>, bound |-> <<>>]
 Selections ==
   CASE G = "G1x" -> << Sel("set_of", [j \in 1..NV |-> V(j)]), Sel("set_of", [j \in 1..NV |-> V(NV + 1 - j)]) >>
+    [] G = "G3v" -> << Sel("set_of", <<V(3), V(1)>>), Sel("set_of", <<V(1), V(2), V(3)>>), Sel("entity", <<V(2)>>) >>
     [] G = "G12" ->
        (IF NV = 1 THEN << Sel("entity", <<V(1)>>) >>
         ELSE IF NV = 2 THEN
